@@ -218,6 +218,8 @@ func (e c14Ev) String() string {
 		return fmt.Sprintf("->(%s,%d,v%d)", e.InfoHash, e.InfoH, e.InfoV)
 	case "done":
 		return "done(" + e.Err + ")"
+	case "req":
+		return fmt.Sprintf("req(%s i%d)", e.Peer, e.Idx)
 	}
 	return e.K
 }
@@ -253,6 +255,47 @@ func c14JournalSig(j []c14Ev) string {
 	return hex.EncodeToString(h.Sum(nil)[:12])
 }
 
+// c14JournalHash: the same identity as a 64-bit FNV-1a hash computed without formatting (hot path)
+func c14JournalHash(j []c14Ev) uint64 {
+	h := uint64(14695981039346656037)
+	b := func(x byte) { h = (h ^ uint64(x)) * 1099511628211 }
+	s := func(x string) {
+		for i := 0; i < len(x); i++ {
+			b(x[i])
+		}
+		b(0xff)
+	}
+	u := func(x uint64) {
+		for i := 0; i < 8; i++ {
+			b(byte(x >> (8 * i)))
+		}
+	}
+	for _, e := range j {
+		s(e.K)
+		s(e.Peer)
+		u(e.H)
+		u(uint64(e.F)<<32 | uint64(e.N))
+		u(uint64(e.Idx)<<8 | uint64(e.Res))
+		s(e.Hash)
+		s(e.What)
+		s(e.AppHash)
+		s(e.Err)
+		s(e.InfoHash)
+		u(uint64(e.InfoH)<<8 | e.InfoV)
+		if e.Added {
+			b(1)
+		}
+		for _, r := range e.Refetch {
+			u(uint64(r) + 1)
+		}
+		for _, r := range e.Reject {
+			s(r)
+		}
+		b(0xfe)
+	}
+	return h
+}
+
 // ---------------------------------------------------------------------------------------------
 // peers, app, state provider
 
@@ -269,6 +312,7 @@ func (p *c14Peer) SendEnvelope(e p2p.Envelope) bool {
 	}
 	return true
 }
+func (p *c14Peer) TrySendEnvelope(e p2p.Envelope) bool { return p.SendEnvelope(e) }
 func (p *c14Peer) Send(byte, []byte) bool    { return true }
 func (p *c14Peer) TrySend(byte, []byte) bool { return true }
 func (p *c14Peer) String() string            { return string(p.id) }
@@ -363,6 +407,7 @@ type c14World struct {
 	seq     int
 
 	onSend func(p *c14Peer, e p2p.Envelope) bool // part "fetch": request capture
+	gate   *c14Gate                              // part "fetch": deliveries are responses to captured requests only
 
 	// chooser
 	choices  []int
@@ -381,6 +426,7 @@ type c14World struct {
 
 	inconclusive string
 	panicked     string
+	pendingCall  *c14Call
 }
 
 func (w *c14World) log(e c14Ev) {
@@ -475,6 +521,16 @@ func (w *c14World) applyMenu(idx uint32, sender string) []c14Verdict {
 		if otherPeer != "" {
 			m = append(m, c14Verdict{A, nil, []string{otherPeer}})
 		}
+		if w.gate != nil {
+			// part "fetch": one fetcher per queue (see c14Gate.settle) => no RETRY_SNAPSHOT there
+			var g []c14Verdict
+			for _, v := range m {
+				if v.Res != RS {
+					g = append(g, v)
+				}
+			}
+			return g
+		}
 		return m
 	}
 	refs := [][]uint32{nil, me}
@@ -544,6 +600,9 @@ func (w *c14World) netMenu(need int) []c14Net {
 	var m []c14Net
 	if w.cur == nil {
 		return m
+	}
+	if w.gate != nil {
+		return w.gate.menu(need)
 	}
 	def := w.defaultPeer()
 	n := w.cur.N
@@ -639,6 +698,8 @@ func (w *c14World) doNet(ev c14Net) {
 	case "rm":
 		w.s.RemovePeer(w.peer(ev.Peer))
 		w.log(c14Ev{K: "rm", Peer: ev.Peer})
+	case "respond":
+		w.gate.respond(ev)
 	default:
 		w.deliver(ev.Kind, ev.Peer, ev.Idx)
 	}
@@ -678,12 +739,19 @@ func (w *c14World) waitStable() c14Stable {
 	for spins := 0; ; spins++ {
 		select {
 		case c := <-w.calls:
+			if w.gate != nil && c.kind != "offer" && !w.gate.settle() {
+				w.pendingCall = c
+				return c14Stable{kind: "timeout"}
+			}
 			return c14Stable{kind: "call", call: c}
 		case <-w.done:
 			return c14Stable{kind: "done"}
 		default:
 		}
 		if idx, ok := w.blockedOn(); ok {
+			if w.gate != nil && !w.gate.settle() {
+				return c14Stable{kind: "timeout"}
+			}
 			return c14Stable{kind: "blocked", idx: idx}
 		}
 		if spins < 2000 {
@@ -744,6 +812,9 @@ func (w *c14World) atCall(c *c14Call) {
 		w.netAtCall("apply")
 		m := w.applyMenu(c.apply.Index, c.apply.Sender)
 		v := m[w.pick("v", len(m))]
+		if w.gate != nil {
+			w.gate.beforeReject(v.Reject)
+		}
 		w.log(c14Ev{K: "apply-v", Res: int(v.Res), Refetch: v.Refetch, Reject: v.Reject})
 		for _, p := range v.Reject {
 			w.rejected[p] = true
@@ -772,6 +843,15 @@ func (w *c14World) atCall(c *c14Call) {
 
 func (w *c14World) atBlocked(idx uint32) {
 	m := w.netMenu(int(idx))
+	if w.gate != nil {
+		// the first option answers the request for the chunk the syncer is waiting for
+		if len(m) == 0 {
+			w.inconclusive = "syncer waits for a chunk nobody was asked for"
+			return
+		}
+		w.doNet(m[w.pick("a", len(m))])
+		return
+	}
 	k := w.pick("a", 1+len(m))
 	if k == 0 {
 		w.deliver("good", w.defaultPeer(), idx)
@@ -790,6 +870,7 @@ type c14Result struct {
 	Kinds        []string
 	Inconclusive string
 	Panicked     string
+	Extra        map[string]int
 }
 
 var c14Scenarios = map[string]*c14Scenario{}
@@ -933,7 +1014,7 @@ func c14Check(j []c14Ev, truth c14Truth) (key, what string, diags []c14Diag) {
 	srcs := map[string]map[string]bool{} // snapshot key -> peers that advertised it while not rejected and are still not rejected
 	gone := map[string]bool{}            // "snapshot key|peer": the peer was removed (disconnected) and has not advertised that snapshot since
 	escaped := map[string]bool{}         // peer was a sender of a sender-rejected snapshot while disconnected
-	escSrc := map[string]bool{}          // snapshot key advertised (only counted here) by an escaped peer
+	allSrc := map[string]map[string]bool{} // snapshot key -> every peer that ever advertised it (validly or after escaping a rejection)
 	arrs := map[string]*c14Arr{}
 	var cur *c14Attempt
 	session := 0
@@ -949,10 +1030,11 @@ func c14Check(j []c14Ev, truth c14Truth) (key, what string, diags []c14Diag) {
 		case "adv":
 			k := c14SnapKey(e.H, e.F, e.N, []byte(e.Hash), []byte(e.Meta))
 			_, rp := rejPeer[e.Peer]
+			if allSrc[k] == nil {
+				allSrc[k] = map[string]bool{}
+			}
+			allSrc[k][e.Peer] = true
 			if rp || rejFmt[e.F] || rejSnap[k] {
-				if rp && escaped[e.Peer] {
-					escSrc[k] = true
-				}
 				continue // an advertisement of something rejected gives the snapshot no legitimate source
 			}
 			delete(gone, k+"|"+e.Peer)
@@ -995,7 +1077,14 @@ func c14Check(j []c14Ev, truth c14Truth) (key, what string, diags []c14Diag) {
 			if len(srcs[k]) == 0 {
 				if retry {
 					diag("diag_retry_snapshot_of_rejected_sender", "app rejected the only sender and asked to retry the snapshot in the same response; the retry is honoured")
-				} else if escSrc[k] {
+				} else if func() bool {
+					for p := range allSrc[k] {
+						if escaped[p] {
+							return true
+						}
+					}
+					return false
+				}() {
 					return fail("statesync/syncer.go:SyncAny:reject-sender-misses-disconnected-peer",
 						"the app answered REJECT_SENDER for a snapshot whose sender had disconnected meanwhile; that sender later advertised this snapshot and it was offered", pos)
 				} else {
